@@ -129,8 +129,9 @@ class Recorder:
             ranges.append((0, geo.dims[k] - 1) if rg is None else (min(rg), max(rg)))
         if self.depth == 0:
             self.steps.append(fw)          # (nested calls: opposite environments of the full-bond mode)
-        blocks, bonds, wbonds = observe_boundary(tn, geo, ranges, ax, lat.edges)
-        rec = {"ev": "handover", "what": "boundary", "side": fw, "blocks": blocks, "bonds": bonds, "wbonds": wbonds}
+        blocks, bonds, wbonds, nbonds = observe_boundary(tn, geo, ranges, ax, lat.edges)
+        rec = {"ev": "handover", "what": "boundary", "side": fw, "blocks": blocks, "bonds": bonds, "wbonds": wbonds, "nbonds": nbonds,
+               "nbound": len(blocks) - len(seen_count(nbonds))}
         if lat.watch_value:
             dang, v = U.tn_value(tn)
             if dang == 0:
@@ -238,6 +239,10 @@ class Recorder:
             self.emit(rec)
 
 
+def seen_count(nbonds):
+    return {b for _, b, _ in nbonds}
+
+
 def observe_boundary(tn, geo, ranges, ax, edges):
     """blocks of sites merged into the boundary groups of the lines ranges[ax], and the sizes of the bonds
     between neighbouring groups (the bonds the step compresses); groups are addressed by site tags"""
@@ -287,7 +292,29 @@ def observe_boundary(tn, geo, ranges, ax, edges):
             if U.cross(edges, set(blocks[idx[k] - 1]), set(blocks[idx[k2] - 1])) > 1:
                 sz, n = U.group_bond(tn, groups[k] - groups[k2], groups[k2] - groups[k])
                 wbonds.append([idx[k], idx[k2], sz])
-    return blocks, bonds, wbonds
+    # bonds from the boundary groups to the rest of the network: compress_late=False compresses these too when they exceed
+    # the cap, so they count for the exact bond size of the run (not for CapRespected)
+    nbonds = []
+    seen_out = {}
+    inb = set().union(*groups.values()) if groups else set()
+    for k in order:
+        out = {}
+        for x in groups[k]:
+            tx = tn.tensor_map[x]
+            for ix in tx.inds:
+                for y in tn.ind_map[ix]:
+                    if y not in inb:
+                        out.setdefault(y, 0)
+        for y in sorted(out):
+            sites = sorted(geo.sites_of(tn, [y]))
+            if not sites:
+                continue
+            sz, n = U.group_bond(tn, groups[k], [y])
+            if y not in seen_out:
+                blocks.append(sites)
+                seen_out[y] = len(blocks)
+            nbonds.append([idx[k], seen_out[y], sz])
+    return blocks, bonds, wbonds, nbonds
 
 
 # =============================================================================== one lattice = one trace
@@ -624,7 +651,8 @@ def dry_need(lat, call):
         if e["ev"] == "handover":
             n1 = max([U.cross(lat.edges, set(e["blocks"][a - 1]), set(e["blocks"][b - 1])) for a, b, _ in e["bonds"]] or [0])
             n2 = max([U.cross(lat.edges, set(e["blocks"][a - 1]), set(e["blocks"][b - 1])) for a, b, _ in e["wbonds"]] or [1])
-            need = max(need, n1 * max(1, n2))
+            n3 = max([U.cross(lat.edges, set(e["blocks"][a - 1]), set(e["blocks"][b - 1])) for a, b, _ in e.get("nbonds", [])] or [0])
+            need = max(need, n1 * max(1, n2), n3)
         elif e["ev"] == "compress":
             need = max(need, U.cross(lat.edges, set(e["a"]), set(e["b"])))
     return need
@@ -1287,7 +1315,8 @@ def run(ctx):
 
 def finish(ctx, fails):
     ctx.clauses.update(["Returns", "OnGrid", "ExactWhenUntruncated", "CapRespected", "NeverGrows", "BoundaryPartition", "EnvCovers",
-                        "EnvConsistent", "model: CapRespected ExactWhenUntruncated EnvConsistent NeedIsCross SelectUnique"])
+                        "EnvConsistent", "TargetUntouched", "AroundHugs",
+                        "model: CapRespected ExactWhenUntruncated EnvConsistent NeedIsCross SelectUnique TargetUntouched AroundHugs"])
     ctx.assumptions += [
         "exact domain: Gaussian-integer tensors with non-zero entries, <= 12 sites, bond sizes 1..3, |value| < 2^29",
         "cutoff = 0 in every run; the exact bond size of a run is computed by TLC from the recorded blocks (C12_Defs!Cross)",
@@ -1317,6 +1346,8 @@ def model_cases(ctx, rng):
     ctx.model_check("MC_C12", "MC_quick.cfg" if quick else "MC_thorough.cfg", name="boundary-sweeps", require_actions=SWEEP_ACTIONS, timeout=2400)
     ctx.model_check("MC_Tree", "MC_tree_quick.cfg" if quick else "MC_tree_thorough.cfg", name="tree-contraction",
                     require_actions=("Contract", "Return"), timeout=2400)
+    ctx.model_check("MC_C12", "MC_around.cfg", name="around-regions", require_actions=("Pick", "AbsorbRow", "HandOver", "Return"), timeout=1200)
+    selftest(ctx, "MC_C12", "MC_crossed.cfg", "AroundOK", "stop test of ymax uses the target's largest row index")
     selftest(ctx, "MC_C12", "MC_skipbond.cfg", "CapRespected", "last bond of a boundary line left uncompressed")
     selftest(ctx, "MC_C12", "MC_alias.cfg", "EnvConsistent", "environments stored as views: the projector mode relabels them in place (the code before the fix of KF-C12-1)")
     if not quick:
